@@ -610,7 +610,7 @@ class AbstractExcelInPython(ABC):
                 i = self._flatten_list(i)
                 if len(average_range) != len(i):
                     raise self.ExcelInPythonException('Invalid averageifs range size')
-                range_and_criteria_zip.append([_when_bool_cast_to_int(self._when_cell_is_empty_cast_to_zero(i))])
+                range_and_criteria_zip.append([_when_bool_cast_to_int(i)])
             else:
                 range_and_criteria_zip[-1].append(i)
 
@@ -637,7 +637,7 @@ class AbstractExcelInPython(ABC):
                 i = self._flatten_list(i)
                 if len(count_range) != len(i):
                     raise self.ExcelInPythonException('Invalid countifs range size')
-                range_and_criteria_zip.append([self._when_cell_is_empty_cast_to_zero(i)])
+                range_and_criteria_zip.append([i])
             else:
                 range_and_criteria_zip[-1].append(i)
 
@@ -662,7 +662,7 @@ class AbstractExcelInPython(ABC):
                 i = self._flatten_list(i)
                 if len(sum_range) != len(i):
                     raise self.ExcelInPythonException('Invalid sumifs range size')
-                range_and_criteria_zip.append([_when_bool_cast_to_int(self._when_cell_is_empty_cast_to_zero(i))])
+                range_and_criteria_zip.append([_when_bool_cast_to_int(i)])
             else:
                 range_and_criteria_zip[-1].append(i)
 
